@@ -165,6 +165,7 @@ class Ev:
             f = [s.operand(P, x) for x in r["fields"]]
             if r["agg"] == "tuple": return Tup(f)
             if r["agg"] == "adt": return Adt(r["adt"], r["variant"], f)
+            if r["agg"] == "closure": return Unknown("closure")
         if k == "discr": return ("discr", s.read(P, r["p"]))
         raise Inconclusive("rvalue " + k)
     def deref_val(s, P, v):
@@ -369,6 +370,34 @@ def check(b, method):
 
 
 
+def size_hint_check(b):
+    """f3, decided semantically: in each of the four entry configurations size_hint must be (T, Some(T)) with
+    T = f + m*C + b the number of remaining elements"""
+    results = []
+    for front_some in (False, True):
+        for back_some in (False, True):
+            fv = F if front_some else ZERO
+            bv = Bk if back_some else ZERO
+            T = fv + M * C + bv
+            selfv = [Rows(ZERO, M, fv),
+                     Adt("Option", "Some", [Seq(ZERO, F)]) if front_some else Adt("Option", "None", []),
+                     Adt("Option", "Some", [Seq(fv + M * C, fv + M * C + Bk)]) if back_some else Adt("Option", "None", [])]
+            P = St(); P.self = selfv; P.env[1] = RefTo("self", [])
+            P.conds = [Cond(">=", F), Cond(">=", M), Cond(">=", Bk), Cond(">=", C)]
+            cfg = "front=%s back=%s" % ("Some" if front_some else "None", "Some" if back_some else "None")
+            try:
+                outs = Ev(b).run(P)
+            except Inconclusive as e:
+                results.append((None, cfg, "engine inconclusive: %s" % e)); continue
+            for (R_, oc) in outs:
+                if oc[0] == "panic":
+                    results.append((False, cfg, "panics")); continue
+                ret = oc[1]
+                ok = isinstance(ret, Tup) and len(ret.f) == 2 and isinstance(ret.f[0], Poly) and ret.f[0] == T and isinstance(ret.f[1], Adt) and ret.f[1].variant == "Some" and ret.f[1].f[0] == T
+                results.append((ok, cfg, "returns %r, remaining elements %r" % (ret, T)))
+    return results
+
+
 def r_flatseq(f):
     R = Result("R-FLATSEQ")
     npaths = 0
@@ -412,5 +441,21 @@ def r_flatseq(f):
             R.inconc(b.ident, "%s: %s" % (r[1], r[2][:200]))
         if und:
             ninc += 1
+    # f3: size_hint
+    bs = [b for b in f.fn_bodies if b.self_head == "FlattenExact" and b.name == "size_hint" and b.impl_trait]
+    if bs:
+        b = bs[0]
+        try:
+            res = size_hint_check(b.d)
+            bad = [r for r in res if r[0] is False]
+            und = [r for r in res if r[0] is None]
+            if und and not bad:
+                R.inconc(b.ident, "; ".join(r[2] for r in und)[:300])
+            else:
+                R.inst(b.ident, "f3 size_hint equals the number of remaining elements f + m*C + b in all 4 entry configurations", not bad)
+                for r in bad:
+                    R.fail(b.ident, "f3:%s:%s" % (r[1], r[2][:80]), "%s: for entry state %s it %s" % (b.ident, r[1], r[2]), b.where())
+        except (KeyError, IndexError, TypeError, AttributeError, RecursionError) as e:
+            R.inconc(b.ident, "engine error %s: %r" % (type(e).__name__, e))
     R.require_floor(nfun, 2, "FlattenExact stepping functions")
     return R, npaths
